@@ -139,8 +139,8 @@ impl Prop for C18 {
     }
     fn runs(&self, tier: Tier) -> u64 {
         match tier {
-            Tier::Quick => 2_400,
-            Tier::Thorough => 40_000,
+            Tier::Quick => 8_000,
+            Tier::Thorough => 60_000,
         }
     }
     fn generate(&self, i: u64, r: &mut Rng, tier: Tier) -> Scenario {
